@@ -22,7 +22,7 @@ already cleared (double close, config consumed by mla_archive_new, closing and f
 closing while a file is still open and then using the handle), then extraction of the collected archive through \
 mla_roarchive_extract with throttled read / seek callbacks, per-file writers with their own schedules, a file callback that \
 declines some names, optionally a second extraction in which the read callback, the seek callback or one extraction writer \
-reports an error at its k-th call; mla_roarchive_info on the collected archive; extraction, through the same callbacks, of the \
+reports an error at its k-th call; mla_roarchive_info on the collected archive, in half of the cases on the very reader context the extraction then uses without repositioning it, and a second extraction on a context the first one has used; extraction, through the same callbacks, of the \
 same files written by the Rust writer without layers / with compression only / with encryption only). Cases run in worker processes. Oracle: without failure placement every call returns 0, the collected \
 bytes are read by the Rust reader to exactly the files passed in, and every accepted extraction writer receives exactly its \
 file; calls with null / cleared handles return a non-zero status and change nothing; with a failing callback some call \
@@ -645,9 +645,20 @@ pub fn oracle(c: &Case, st: &mut Stats) -> Result<(), String> {
         expect_err("mla_roarchive_extract(NULL read callback)", (lib.roarchive_extract)(&mut tmp, None, Some(seek_cb), Some(file_cb), src_ptr))?;
         expect_err("mla_roarchive_extract(NULL config)", (lib.roarchive_extract)(std::ptr::null_mut(), Some(read_cb), Some(seek_cb), Some(file_cb), src_ptr))?;
     }
+    // the reader context may have been used before: mla_roarchive_info leaves it just past the header, and the caller
+    // does not reposition it (the interface is given a seek callback for that)
+    let used_before = c.seed % 2 == 1;
+    if used_before {
+        let mut info = ArchiveInfo::default();
+        let s = (lib.roarchive_info)(Some(read_cb), src_ptr, &mut info);
+        if s != 0 {
+            return Err(format!("mla_roarchive_info failed on the archive the C interface produced: {s:#x}"));
+        }
+        st.label("extraction on the reader context mla_roarchive_info has just used");
+    }
     let s = (lib.roarchive_extract)(&mut rcfg, Some(read_cb), Some(seek_cb), Some(file_cb), src_ptr);
     if s != 0 {
-        return Err(format!("mla_roarchive_extract failed on the archive the C interface produced: {s:#x}"));
+        return Err(format!("mla_roarchive_extract failed on the archive the C interface produced{}: {s:#x}", if used_before { " (reader context used by mla_roarchive_info just before, not repositioned)" } else { "" }));
     }
     if !rcfg.is_null() {
         return Err("mla_roarchive_extract did not clear the configuration handle it consumed".into());
@@ -705,6 +716,29 @@ pub fn oracle(c: &Case, st: &mut Stats) -> Result<(), String> {
                 Some(w) if w.buf == *d => {}
                 Some(w) => return Err(format!("extraction of a Rust-written archive (layers {}) delivered {} bytes to the writer of {n}, the file has {}", prog::layers_name(layers), w.buf.len(), d.len())),
                 None => return Err(format!("extraction of a Rust-written archive (layers {}): the file callback was not asked about {n}", prog::layers_name(layers))),
+            }
+        }
+        // a second extraction on the same reader context, left wherever the first one ended
+        if c.seed % 4 >= 2 {
+            fsrc.writers.clear();
+            fsrc.seen = 0;
+            let mut fcfg: *mut c_void = null;
+            if (lib.reader_config_new)(&mut fcfg) != 0 {
+                return Err("mla_reader_config_new failed".into());
+            }
+            if layers & 1 != 0 && (lib.reader_config_add_private_key)(fcfg, sk.as_ptr()) != 0 {
+                return Err("mla_reader_config_add_private_key failed".into());
+            }
+            let s = (lib.roarchive_extract)(&mut fcfg, Some(read_cb), Some(seek_cb), Some(file_cb), fptr);
+            st.label("second extraction on the same reader context");
+            if s != 0 {
+                return Err(format!("a second mla_roarchive_extract on the same reader context (not repositioned by the caller) failed ({s:#x}); layers {}", prog::layers_name(layers)));
+            }
+            for (n, d) in &model {
+                match fsrc.writers.get(n) {
+                    Some(w) if w.buf == *d => {}
+                    _ => return Err(format!("a second extraction on the same reader context delivered other bytes than the first for {n}")),
+                }
             }
         }
     }
